@@ -7,6 +7,7 @@ set_option maxRecDepth 1000000
 theorem stepTable_all : coerceOptions.all stepTable = true := by decide +kernel
 theorem markTable_all : coerceOptions.all markTable = true := by decide +kernel
 theorem stateTypesTable_all : coerceOptions.all stateTypesTable = true := by decide +kernel
+theorem nullTable_all : coerceOptions.all nullTable = true := by decide +kernel
 theorem reflTable_all : coerceOptions.all reflTable = true := by decide +kernel
 theorem antisymTable_all : coerceOptions.all antisymTable = true := by decide +kernel
 
